@@ -65,6 +65,9 @@ def run(ctx, rep):
     rep.rule("G5", "a function that receives a seed-or-generator hands a value derived from it (the parameter, its stream, a spawned "
                    "stream, an object's random_state) to every callee parameter that reaches a draw; leaving the callee's seed parameter "
                    "at its default makes that callee draw from numpy's global state", floor=10)
+    rep.rule("G6", "the documented global re-seeding (Experiment.reset_seed_data, run by the Experiment constructor when it is given "
+                   "seed_data) is requested only where a user hands in a seed: a constructor or API function passing its own seed parameter; "
+                   "internal copies of an experiment are built without seed_data, so copying never re-seeds numpy's global generator", floor=4)
     n_draw = 0
     globals_found = 0
     for f in sd.funcs:
@@ -106,6 +109,7 @@ def run(ctx, rep):
     _g3(rep, ts)
 
     _g5(ctx, rep, sd)
+    _g6(ctx, rep)
 
     # ---- G4
     for f in sd.funcs:
@@ -184,6 +188,43 @@ def _g5(ctx, rep, sd: Seeds):
                 else:
                     rep.violation("G5", f, con, "the value handed to the seed parameter '%s' of %s is %s, which is not derived from %s's own seed "
                                                 "parameter %s" % (q, t.qualname, unparse(e), f.name, sp), node=s.node)
+
+
+def _g6(ctx, rep):
+    from ..resolve import bind_call
+    ix = ctx.ix
+    exp = ix.classes.get("quara.qcircuit.experiment.Experiment")
+    if exp is None:
+        raise AnalysisError("quara.qcircuit.experiment.Experiment not found")
+    init = exp.lookup("__init__")
+    for f in ix.funcs.values():
+        if not f.module.name.startswith("quara."):
+            continue
+        for n in own_nodes(f.node):
+            if not isinstance(n, ast.Call):
+                continue
+            t = ix.resolve_expr(f.module, n.func, f) if not isinstance(n.func, ast.Call) else None
+            is_ctor = t is exp or (isinstance(n.func, ast.Attribute) and unparse(n.func) in ("self.__class__", "type(self)") and f.cls is exp)
+            if is_ctor and init is not None:
+                b, _ = bind_call(n, init, True)
+                e = b.get("seed_data")
+                con = "%s: Experiment(... seed_data=%s)" % (f.qualname.split("quara.")[-1], unparse(e) if e is not None else "<default>")
+                if e is None or (isinstance(e, ast.Constant) and e.value is None):
+                    rep.holds("G6", f, con, "built without seed_data: no re-seeding", node=n)
+                elif isinstance(e, ast.Name) and e.id in f.params and f.name in ("__init__",) or (isinstance(e, ast.Name) and e.id in f.params and f.cls is None):
+                    rep.holds("G6", f, con, "the caller's own seed parameter, at construction / API level", node=n)
+                else:
+                    rep.violation("G6", f, con, "%s builds an Experiment with seed_data=%s: the constructor calls reset_seed_data, which re-seeds numpy's global "
+                                  "generator - here on a path that is not the user handing in a seed (every tomography-level data generation copies its "
+                                  "experiment first, so repeated draws from the global state would repeat)" % (f.name, unparse(e)), node=n)
+            elif isinstance(n.func, ast.Attribute) and n.func.attr == "reset_seed_data":
+                con = "%s: %s" % (f.qualname.split("quara.")[-1], unparse(n))
+                in_ctor = f.cls is exp and f.name == "__init__"
+                public_reset = f.name in ("reset_seed",)
+                if in_ctor or public_reset:
+                    rep.holds("G6", f, con, "documented re-seeding entry", node=n)
+                else:
+                    rep.violation("G6", f, con, "%s re-seeds the global generator outside the constructor / reset_seed entry points" % f.name, node=n)
 
 
 def _g3(rep, ts: Func):
